@@ -53,7 +53,7 @@ class C06(Prop):
                         'channel': rng.random() < 0.4, 'n0': 1, 'more': [1] * rng.choice([17, 24, 40]), 'together': True})
         for _ in range(n // 3):
             out.append({'mode': 'wire', 'kind': rng.choice(sources.KINDS), 'count': rng.choice([0, 1, 3, 6]), 'flagged': False, 'failing': False,
-                        'channel': rng.random() < 0.4, 'n0': rng.choice([1, 2, 3, 2 ** 31 - 1]), 'more': [rng.choice([1, 2, 5]) for _ in range(rng.randint(0, 3))]})
+                        'channel': rng.random() < 0.4, 'n0': rng.choice([1, 2, 3, 2 ** 31 - 1]), 'more': [rng.choice([1, 2, 5, 2 ** 31 - 1, 2 ** 31 - 2]) for _ in range(rng.randint(0, 3))]})
         # the library's own awaitable requester (CollectorSubscriber behind AwaitableRSocket): the credit it grants
         for _ in range(n // 3):
             k = rng.choice([0, 1, 2, 3, 4, 6, 9])
